@@ -1,4 +1,6 @@
 """Progress trackers, budgets and the search loops (C12, C14)."""
+import specs.evaluation  # noqa: F401  (declaration order)
+import specs.steps  # noqa: F401  (declaration order)
 from pyvc.spec import REG as R, Loop
 
 TRK = "geneticengine/evaluation/tracker.py"
